@@ -82,6 +82,23 @@ def run_startpoints(tier, funcs, index, enums, res):
         [n for n, _ in plans], c18_startpoints.VOCAB)
 
 
+def run_walk(tier, funcs, index, enums, res, text):
+    import c02_walk
+    r = c02_walk.explore(funcs, index, enums, text)
+    res["functions_executed"].update(r.pop("functions_executed"))
+    for v in r.pop("violations"):
+        res["violations"].append({"key": "walk | " + (v.get("class") if v.get("class", "other") != "other" else v["what"].split(":")[0]), "summary": v["what"], "replayer": "walk_depth",
+                                  "config": v.get("config"), "what": v["what"]})
+    for k, c in r.pop("unsupported").items():
+        res["unsupported"][k] = res["unsupported"].get(k, 0) + c
+    r["bound"] = "process_dir over the walkdir model, every (mindepth, maxdepth) in 0..4 x -depth x -P/-H/-L"
+    r["inputs_covered"] = r.pop("checks")
+    res["runs"].append(r)
+    res["target"] += ("; process_dir + WalkEntry::from_walkdir + WalkError's conversions over a port of walkdir 2.5's iterator (min/max depth, contents_first, follow_links, errors for "
+                      "dangling / looping links and unreadable directories, skip_current_dir) on a 11-entry tree")
+    res["bounds"] += ("; walk: tree %s, -mindepth and -maxdepth 0..4 (incl. min > max), -depth on/off, -P/-H/-L; expression -print" % [(p, k) for p, _d, k in c02_walk.TREE])
+
+
 def run_exec(prop, tier, funcs, index, enums, res):
     import c08_exec
     kinds = ["multi", "multi_dir", "multi_quit", "multi_two"] if prop == "C08" else ["single", "single_dir"]
@@ -231,6 +248,8 @@ def main():
         run_batching(tier, funcs, index, enums, res)
     elif prop in ("C18", "C02"):
         run_startpoints(tier, funcs, index, enums, res)
+        if prop == "C02":
+            run_walk(tier, funcs, index, enums, res, text)
     elif prop in ("C08", "C09"):
         run_exec(prop, tier, funcs, index, enums, res)
     elif prop == "C05":
